@@ -36,6 +36,7 @@ type Stats struct {
 	TraceHashes                        []string
 	Workers                            int
 	Desc                               string
+	AtomicYields                       int // ... of which before a sync/atomic, sync.Map or sync.Pool operation
 	AutoYields                         int // decisions taken at scheduling points inserted by the autoyield instrumenter
 	// MapDep names the library routine whose Go-map iteration legitimately
 	// influences this case's execution order or bytes ("" = none): such a case is
@@ -79,6 +80,9 @@ func (r *runner) absorb(res simsched.Result) {
 	for site, n := range res.Sites {
 		if strings.HasPrefix(site, "auto:") || strings.HasPrefix(site, "atomic:") {
 			r.st.AutoYields += n
+		}
+		if strings.HasPrefix(site, "atomic:") {
+			r.st.AtomicYields += n
 		}
 	}
 }
